@@ -7,6 +7,7 @@ from typing import Dict, List, Optional, Tuple
 
 from sa.canon import canon, same
 from sa.index import AnalysisError
+from sa.peval import Unknown, compile_term
 from sa.report import Ctx
 from sa.sym import FALSE, NONE, Summary, bind_args, conjuncts, show, subst, walk
 
@@ -157,7 +158,9 @@ class C06:
         inter = ("attr", ("call", ("attr", S1, "intersection"), (S2,), ()), "area")
         union = ("bin", "-", ("bin", "+", ("attr", S1, "area"), ("attr", S2, "area")), inter)
         arets = [r for r in s.returns if not (r.term[0] == "call" and r.term[1] == tsym)]
+        self.fast_leaves = (P1, P2)
         self.check_iou("compute_affinity", s, arets, inter, union, clamp_required=True)
+        self.fast_leaves = None
         # _prepare_geometry itself
         g = ("param", ps.params[0])
         BUF = ("global", f"{AFF}:BUFFER_GEOMETRY_TYPES", "assign")
@@ -190,6 +193,77 @@ class C06:
         tunion = ("bin", "-", ("bin", "+", ("bin", "-", e1, s1), ("bin", "-", e2, s2)), tinter)
         self.check_iou("compute_affinity_in_time", ts, ts.returns, tinter, tunion, clamp_required=False)
 
+    @staticmethod
+    def _unclamp(t):
+        ONE = (("const", 1), ("const", 1.0))
+        if t[0] == "call" and t[1] == ("builtin", "min") and len(t[2]) == 2 and any(x in ONE for x in t[2]):
+            return [x for x in t[2] if x not in ONE][0], True
+        if t[0] == "call" and t[1] == ("builtin", "float") and len(t[2]) == 1:
+            return t[2][0], False
+        return t, False
+
+    def fast_paths(self, fname, s: Summary, extra):
+        """Closed-form return paths taken when both geometries are bounding boxes: the piecewise function they define
+        over the eight box coordinates must equal the intersection-over-union of the two boxes on a grid of box pairs
+        (disjoint in one axis, in both, touching, nested, identical, degenerate).  Returns True (all fine, instances
+        recorded), False (violation recorded) or None (outside the fragment)."""
+        ctx = self.ctx
+        P1, P2 = self.fast_leaves
+        BB = ("call", ("attr", ("global", "soundevent.data.geometries:BoundingBox", "class"), "geom_type"), (), ())
+        BB2 = ("call", ("global", "soundevent.data.geometries:BoundingBox.geom_type", "func"), (), ())
+        is_bb = lambda P: [("cmp", "eq", ("attr", P, "type"), BB), ("cmp", "eq", BB, ("attr", P, "type")),
+                           ("cmp", "eq", ("attr", P, "type"), BB2), ("cmp", "eq", BB2, ("attr", P, "type")),
+                           ("cmp", "eq", ("attr", P, "type"), ("const", "BoundingBox")),
+                           ("call", ("builtin", "isinstance"), (P, ("global", "soundevent.data.geometries:BoundingBox", "class")), ())]
+        names = {}
+        for gi, P in enumerate((P1, P2)):
+            for i in range(4):
+                names[("sub", ("attr", P, "coordinates"), ("const", i))] = f"b{gi}_{i}"
+        paths = []
+        for r in extra:
+            conj = list(conjuncts(r.live))
+            if not (any(c in is_bb(P1) for c in conj) and any(c in is_bb(P2) for c in conj)):
+                return None
+            rest = [c for c in conj if c not in is_bb(P1) + is_bb(P2) and not (c[0] in ("not", "cmp") and any(
+                x == ("global", f"{AFF}:TIME_GEOMETRY_TYPES", "assign") for x in walk(c)))]
+            try:
+                from sa.sym import AND
+                paths.append((compile_term(AND(*rest), names)[0], compile_term(r.term, names)[0], r))
+            except Unknown:
+                return None
+        if not paths:
+            return None
+        pts = [0.0, 1.0, 2.0, 3.0, 5.0]
+        n = 0
+        import itertools
+        ivs = [(a, b) for a in pts for b in pts if a <= b]
+        for (s1, e1), (s2, e2), (l1, h1), (l2, h2) in itertools.product(ivs, ivs, [(0.0, 1.0), (1.0, 3.0), (2.0, 2.0)], [(0.0, 1.0), (0.5, 2.0), (4.0, 5.0)]):
+            env = {"b0_0": s1, "b0_1": l1, "b0_2": e1, "b0_3": h1, "b1_0": s2, "b1_1": l2, "b1_2": e2, "b1_3": h2}
+            it = max(0.0, min(e1, e2) - max(s1, s2)) * max(0.0, min(h1, h2) - max(l1, l2))
+            un = (e1 - s1) * (h1 - l1) + (e2 - s2) * (h2 - l2) - it
+            want = 0.0 if un == 0 else it / un
+            got = None
+            for cond, val, r in paths:
+                try:
+                    if cond(env):
+                        got = (val(env), r)
+                        break
+                except ZeroDivisionError:
+                    got = ("ZeroDivisionError", r)
+                    break
+            n += 1
+            if got is None:
+                continue  # falls through to the canonical path
+            if got[0] == "ZeroDivisionError" or abs(got[0] - want) > 1e-12:
+                r = got[1]
+                ctx.bad("R06.4", self.file, fname, f"return {show(r.term)[:90]} (bounding-box path)",
+                        f"{fname}: the closed-form path for two bounding boxes gives {got[0]} for boxes "
+                        f"[{s1}, {l1}, {e1}, {h1}] and [{s2}, {l2}, {e2}, {h2}] whose intersection over union is {want}",
+                        r.lineno, witness={"box1": [s1, l1, e1, h1], "box2": [s2, l2, e2, h2], "got": got[0], "want": want})
+                return False
+        ctx.ok("R06.4", f"{self.file}:{paths[0][2].lineno} {fname}", f"closed-form bounding-box path equals the IoU on {n} box pairs")
+        return True
+
     def check_iou(self, fname, s: Summary, rets, inter, union, clamp_required: bool):
         ctx = self.ctx
         site = f"{self.file}:{s.node.lineno} {fname}"
@@ -207,8 +281,19 @@ class C06:
             ctx.bad("R06.4", self.file, fname, "if union == 0: return 0",
                     f"{fname} has no zero-union guard: two zero-extent geometries divide by zero", s.node.lineno)
         if len(quot) != 1:
-            ctx.undec("R06.4", site, f"{len(quot)} non-zero returns (expected the single IoU quotient)")
-            return
+            # additional return paths (a closed-form fast path for some pair of types): decided by evaluating the path's
+            # formula on a grid of box pairs against the IoU it has to equal
+            canonical = [r for r in quot if self._unclamp(r.term)[0] is not None and canon(self._unclamp(r.term)[0]) == q]
+            extra = [r for r in rets if r not in canonical and not (r in zero_ret and any(
+                canon(c) in (zero_guard, canon(("cmp", "le", union, ("const", 0)))) for c in conjuncts(r.live)))]
+            if len(canonical) != 1 or not getattr(self, "fast_leaves", None):
+                ctx.undec("R06.4", site, f"{len(quot)} non-zero returns (expected the single IoU quotient)")
+                return
+            verdict = self.fast_paths(fname, s, extra)
+            if verdict is None:
+                ctx.undec("R06.4", site, f"{len(quot)} non-zero returns; the additional path is outside the formula fragment")
+                return
+            quot = canonical
         r = quot[0]
         t = r.term
         clamped = False
